@@ -240,8 +240,12 @@ struct Conn {
     wr: OwnedWriteHalf,
     registered: bool,
     eof: bool,
+    // the connection has already failed to answer within READ_TIMEOUT once in this history (that is reported as a stall);
+    // later steps do not wait the full time for it again, so a change that hangs connections makes a history slow once
+    stalled: bool,
 }
 
+const STALLED_TIMEOUT: Duration = Duration::from_millis(150);
 const READ_TIMEOUT: Duration = Duration::from_millis(4000);
 
 enum Got {
@@ -308,7 +312,8 @@ impl StepOut {
 // read conn until a line for which `stop` holds (not recorded), EOF or timeout
 async fn read_until<F: Fn(&str) -> bool>(id: usize, c: &mut Conn, so: &mut StepOut, stop: F) {
     loop {
-        match read_line(c, READ_TIMEOUT).await {
+        let tmo = if c.stalled { STALLED_TIMEOUT } else { READ_TIMEOUT };
+        match read_line(c, tmo).await {
             Got::Line(l) => {
                 if stop(&l) {
                     return;
@@ -322,6 +327,7 @@ async fn read_until<F: Fn(&str) -> bool>(id: usize, c: &mut Conn, so: &mut StepO
                 return;
             }
             Got::Timeout => {
+                c.stalled = true;
                 so.stall.push(id);
                 return;
             }
@@ -389,7 +395,7 @@ async fn run_trace(id: &str, cfg_toml: &str, events: &[Vec<String>], out: &mut i
                     Ok(Ok(s)) => {
                         let _ = s.set_nodelay(true);
                         let (r, w) = s.into_split();
-                        conns.insert(cid, Conn { rd: BufReader::new(r), wr: w, registered: false, eof: false });
+                        conns.insert(cid, Conn { rd: BufReader::new(r), wr: w, registered: false, eof: false, stalled: false });
                         let c = conns.get_mut(&cid).unwrap();
                         socket_barrier(cid, c, &mut so, &mut seq).await;
                     }
